@@ -44,9 +44,13 @@ func (m *Model) PullBrightness(ctx context.Context, opts ...resource.ReadOption)
 		defer close(send)
 		for change := range recv {
 			value := change.Value.(*traits.Brightness)
-			send <- PullBrightnessChange{
+			select {
+			case <-ctx.Done():
+				return // the subscriber is gone, nobody will take the change
+			case send <- PullBrightnessChange{
 				Value:      value,
 				ChangeTime: change.ChangeTime,
+			}:
 			}
 		}
 	}()
